@@ -80,7 +80,7 @@ def run_mc(tier, result, errors):
         d = vk.scratch_spec(SPEC_DIR)
         jobs = []
         jobs.append(lambda: mc_one(d, "MC_SoloMachine", "C26:solo", dict(SOLO_CONST, FORMS=FORMS["multi"], **sz["solo_mc"]),
-                                   ["Header", "VM", "VNM", "Misb", "KeyRotated", "SameTs", "RawMisb"],
+                                   ["Header", "VM", "VNM", "Misb", "KeyRotated", "SameTs", "RawMisb", "ZeroHeight", "KeepAlive", "MisbConsumed"],
                                    properties=["SeqStep", "TsMonotone", "FrozenFinal"], constraint="Bound"))
         for q in (1, 2, 3):
             jobs.append(lambda q=q: mc_one(d, "MC_Attestations", "C28:att-q%d" % q, dict(ATT_CONST, QUORUM=q, **sz["att_mc"]),
@@ -193,9 +193,30 @@ def solo_generate(tier, seed, workdir):
     for lst in vk.pmap(one, ["single", "multi"], 2):
         scheds.extend(lst)
     shutil.rmtree(d, ignore_errors=True)
+    scheds = solo_canon(workdir) + scheds
     if len(scheds) < 2:
         raise vk.Infra("solo machine schedule generation produced only %d schedules" % len(scheds))
     return scheds
+
+
+def solo_canon(workdir):
+    """Always-run canonical schedules (Canon_SoloMachine.tla: TLC folds Step over directed macro lists and checks the
+    intended outcomes in the spec before writing them): keep-alive headers, replays under every claimed proof height,
+    misbehaviour for consumed sequences, evidence with a foreign Sequence field."""
+    out = []
+
+    def one(kind):
+        f = os.path.join(workdir, "canon_solo_%s.ndjson" % kind)
+        (items,) = gen("Canon_SoloMachine", dict(SOLO_CONST, FORMS=FORMS[kind], KIND=kind, OutFile=f), [f], timeout=900)
+        for i, s in enumerate(items):
+            s["id"] = "solo-canon-%s-K%d" % (kind, i + 1)
+            s["spec"] = "solo"
+        return items
+    for items in vk.pmap(one, ["single", "multi"], 2):
+        out.extend(items)
+    if len(out) < 8:
+        raise vk.Infra("canonical solo machine schedules missing (%d)" % len(out))
+    return out
 
 
 def solo_consts():
@@ -222,6 +243,10 @@ def solo_cover(lines, cov, sigs):
         cov["solo-%s:%s:%s" % (d["kind"], a["a"], d["res"])] += 1
         if a["a"] == "Misb":
             cov["solo:Misb-%s:%s" % (a.get("pform"), d["res"])] += 1
+            if a["seq"] < pre["seq"]:
+                cov["solo:Misb-consumed-seq:%s" % d["res"]] += 1
+            if a["sig1"]["seq"] != a["seq"] and not pre["frozen"]:
+                cov["solo:Misb-foreign-seq-field:%s" % d["res"]] += 1
             sig = (d["kind"], "Misb", d["res"], a.get("pform"), pre["frozen"], a["seq"] - pre["seq"], a["sig1"]["form"], a["sig2"]["form"],
                    a["sig1"]["enc"], a["sig2"]["enc"], a["path1"] == a["path2"], a["data1"] == a["data2"])
         else:
@@ -231,7 +256,15 @@ def solo_cover(lines, cov, sigs):
                 cov["solo:replay-or-stale:%s" % d["res"]] += 1
             if pre["frozen"]:
                 cov["solo:after-freeze:%s" % d["res"]] += 1
+            if a["a"] == "Header" and not pre["frozen"] and (a["npk"], a["ndiv"], a["ts"]) == (pre["pk"], pre["div"], pre["ts"]) \
+                    and s == dict(pk=pre["pk"], seq=pre["seq"], ts=pre["ts"], div=pre["div"], path="hdr", data=s["data"], enc="raw", form="full"):
+                cov["solo:keepalive-header:%s" % d["res"]] += 1
+            if a["a"] in ("VM", "VNM") and stale and a.get("ph", 0) == s["seq"]:
+                cov["solo:stale-at-signed-height:%s" % d["res"]] += 1
+            if a["a"] in ("VM", "VNM") and a.get("ph", 0) == 0:
+                cov["solo:zero-height:%s" % d["res"]] += 1
             sig = (d["kind"], a["a"], d["res"], pre["frozen"], s["form"], s["enc"], a.get("plen"), max(-2, min(2, s["seq"] - pre["seq"])),
+                   max(-2, min(2, a.get("ph", 0) - pre["seq"])) if a.get("ph", 0) else "zero",
                    s["ts"] == a["ts"], a["ts"] >= pre["ts"], s["div"] == pre["div"], s["pk"] == pre["pk"], s["path"] == a.get("path", "hdr"),
                    s["data"] == a.get("data", s["data"] if a["a"] == "Header" else "none"))
         sigs["C26"].add(sig)
@@ -296,6 +329,13 @@ def att_cover(lines, cov, sigs):
             cov["att:other-tag:%s" % d["res"]] += 1
         if a["data"]["kind"] != ("state" if a["a"] == "Update" else "packet"):
             cov["att:cross-use:%s" % d["res"]] += 1
+        stored = {kv["k"]: kv["v"] for kv in d["pre"]["cons"]}
+        if a["a"] in ("VM", "VNM") and a["data"]["kind"] == "packet" and a["h"] in stored and not d["pre"]["frozen"]:
+            rel = "below" if a["data"]["h"] < a["h"] else "above" if a["data"]["h"] > a["h"] else "at"
+            cov["att:attested-%s-proof-height:%s" % (rel, d["res"])] += 1
+        if a["a"] == "Update" and a["data"]["kind"] == "state" and not d["pre"]["frozen"] and a["data"]["h"] in stored \
+                and stored[a["data"]["h"]] != a["data"]["ts"]:
+            cov["att:conflict-%s:%s" % ("below-latest" if a["data"]["h"] < d["pre"]["latest"] else "at-latest", d["res"])] += 1
         sigs["C28"].add((a["a"], d["res"], d["pre"]["quorum"], d["pre"]["frozen"], len(d["pre"]["cons"]),
                          tuple((s["signer"], s["enc"], s["over"], s["tag"]) for s in a["sigs"]), a["data"]["kind"], a["data"]["h"], a["data"]["ts"],
                          tuple((p["path"], p["com"]) for p in a["data"]["pkts"]), a.get("h"), a.get("val"), a.get("pathc")))
@@ -424,11 +464,13 @@ def wasm_cover(lines, cov, sigs):
 # vacuity floors: substrings of coverage keys that must have been exercised
 FLOORS = {
     "C26": ["solo-single:Header:ok", "solo-multi:Header:ok", "solo-single:VM:ok", "solo-multi:VM:ok", ":VNM:ok", ":VM:err", ":Header:err",
-            "solo:replay-or-stale:err", "solo:Misb-merkle:ok", "solo:Misb-raw:", "solo:after-freeze:err"],
+            "solo:replay-or-stale:err", "solo:Misb-merkle:ok", "solo:Misb-raw:", "solo:after-freeze:err",
+            "solo:keepalive-header:", "solo:stale-at-signed-height:", "solo:zero-height:", "solo:Misb-consumed-seq:", "solo:Misb-foreign-seq-field:"],
     "C27": ["lh:VM:ok", "lh:VM:err", "lh:VNM:ok", "lh:VNM:err", "lh:non-sentinel:err", "lh:path-length:err",
             "lh:ClientOp-Create:err", "lh:ClientOp-Update:err", "lh:ClientOp-Upgrade:err", "lh:ClientOp-Recover:err"],
     "C28": ["att:Update:ok", "att:Update:err", "att:VM:ok", "att:VM:err", "att:VNM:ok", "att:VNM:err", "att:freeze:ok", "att:after-freeze:err",
-            "att:duplicate-signer:err", "att:stranger:err", "att:bad-length:err", "att:other-tag:err", "att:cross-use:err"],
+            "att:duplicate-signer:err", "att:stranger:err", "att:bad-length:err", "att:other-tag:err", "att:cross-use:err",
+            "att:attested-below-proof-height:", "att:attested-above-proof-height:", "att:conflict-below-latest:", "att:conflict-at-latest:"],
     "C29": ["wasm:Set:S:ok", "wasm:Set:T:ok", "wasm:Set:N:ok", "wasm:Delete:S:ok", "wasm:Delete:T:ok", "wasm:Get:S:ok", "wasm:Get:T:ok",
             "wasm:Get:N:ok", "wasm:Iter:S-S:ok", "wasm:Iter:T-T:ok", "wasm:Iter:S-T:ok", "wasm:Iter:nil-nil:ok", "wasm:RIter:T-T:ok"],
 }
@@ -617,7 +659,7 @@ def match_known(fail, schedule, known):
 
 
 C26_PROBE = {"spec": "solo", "id": "probe-C26-raw-misbehaviour", "kind": "single", "acts": [
-    {"a": "VM", "ts": 2, "path": "p1", "data": "x", "plen": 2,
+    {"a": "VM", "ts": 2, "path": "p1", "data": "x", "plen": 2, "ph": 1,
      "sig": {"pk": 1, "seq": 1, "ts": 2, "div": "d1", "path": "p1", "data": "x", "enc": "raw", "form": "full"}},
     {"a": "Misb", "seq": 1, "pform": "raw", "ts1": 2, "ts2": 2, "path1": "p1", "data1": "x", "path2": "p1", "data2": "y",
      "sig1": {"pk": 1, "seq": 1, "ts": 2, "div": "d1", "path": "p1", "data": "x", "enc": "raw", "form": "full"},
